@@ -1325,27 +1325,26 @@ structure Same (h h' : HMap K V) : Prop where
   nev : h'.nevacuate = h.nevacuate
   hash0 : h'.hash0 = h.hash0
   count : h'.count = h.count
-  iter : h'.iterFlag = h.iterFlag
 
 omit [Inhabited K] [Inhabited V] in
-theorem Same.refl (h : HMap K V) : Same h h := ⟨rfl, rfl, rfl, rfl, rfl, rfl, rfl, rfl⟩
+theorem Same.refl (h : HMap K V) : Same h h := ⟨rfl, rfl, rfl, rfl, rfl, rfl, rfl⟩
 
 omit [Inhabited K] [Inhabited V] in
 theorem Same.trans {a b c : HMap K V} (h1 : Same a b) (h2 : Same b c) : Same a c :=
   ⟨h2.buckets.trans h1.buckets, h2.old.trans h1.old, h2.B.trans h1.B, h2.ssg.trans h1.ssg, h2.nev.trans h1.nev,
-   h2.hash0.trans h1.hash0, h2.count.trans h1.count, h2.iter.trans h1.iter⟩
+   h2.hash0.trans h1.hash0, h2.count.trans h1.count⟩
 
 omit [Inhabited K] [Inhabited V] in
 theorem same_fastrand (h : HMap K V) : Same h h.fastrand.2 := by
-  unfold HMap.fastrand; exact ⟨rfl, rfl, rfl, rfl, rfl, rfl, rfl, rfl⟩
+  unfold HMap.fastrand; exact ⟨rfl, rfl, rfl, rfl, rfl, rfl, rfl⟩
 
 omit [Inhabited K] [Inhabited V] in
 theorem same_incr (h : HMap K V) : Same h h.incrnoverflow := by
   unfold HMap.incrnoverflow HMap.fastrand
   split
-  · exact ⟨rfl, rfl, rfl, rfl, rfl, rfl, rfl, rfl⟩
+  · exact ⟨rfl, rfl, rfl, rfl, rfl, rfl, rfl⟩
   · simp only
-    split <;> exact ⟨rfl, rfl, rfl, rfl, rfl, rfl, rfl, rfl⟩
+    split <;> exact ⟨rfl, rfl, rfl, rfl, rfl, rfl, rfl⟩
 
 omit [Inhabited K] [Inhabited V] in
 theorem hashKey_ok {o : Ops K} {s : UInt32} {k : K} (h : HMap K V) (hu : o.unhashable k = false) :
@@ -2932,5 +2931,154 @@ def YieldsAll (o : Ops K) (V : Type) [Inhabited V] : Prop :=
     runLoop o h steps = .ok (tr, true) →
     ∀ k : K, (∀ ev ∈ tr, lookup o.eq k (abs ev.tbl) ≠ none) →
       ∃ k' v' hy, LoopEv.yield (k', v') hy ∈ tr ∧ o.eq k k' = true
+
+/-! ## iteration over a table that does not grow -/
+
+/-- the scan of one bucket of the current array (no `checkBucket`) yields a filled cell of that bucket -/
+theorem iterScan_yield {o : Ops K} {h : HMap K V} {it : Iter K V} {cells : List (Cell K V)} (hN : NoMarks cells) :
+    ∀ (n i : Nat) (k : K) (v : V) (i' : Nat), iterScan o h it cells none n i = .ok (.yield k v i') →
+      ∃ c ∈ cells, c.live = true ∧ k = c.key ∧ v = c.val := by
+  intro n
+  induction n with
+  | zero => intro i k v i' e; simp [iterScan, pure, Except.pure] at e
+  | succ n ih =>
+    intro i k v i' e
+    rw [iterScan] at e
+    by_cases hi : i ≥ bucketCnt
+    · simp [hi, pure, Except.pure] at e
+    · simp only [hi, if_false] at e
+      cases hc : cells[(i + it.offset) % bucketCnt]? with
+      | none => simp [hc, pure, Except.pure] at e
+      | some c =>
+        simp only [hc] at e
+        have hmem : c ∈ cells := List.mem_of_getElem? hc
+        by_cases hemp : (isEmptyTop c.top || c.top == evacuatedEmpty) = true
+        · simp only [hemp, if_true] at e
+          exact ih _ _ _ _ e
+        · simp only [hemp, Bool.false_eq_true, if_false] at e
+          have hlive : c.live = true := by
+            simp only [Bool.or_eq_true, beq_iff_eq, not_or] at hemp
+            rcases hN c hmem with h1 | h1
+            · exfalso
+              apply hemp.1
+              simp only [isEmptyTop, emptyOne, decide_eq_true_eq, UInt8.le_iff_toNat_le]
+              have : (1 : UInt8).toNat = 1 := rfl
+              omega
+            · exact live_iff.2 h1
+          have h5 := live_iff.1 hlive
+          have hx : (c.top != evacuatedX) = true := by
+            simp only [bne_iff_ne, ne_eq]; intro e'; rw [e'] at h5; simp [evacuatedX] at h5
+          have hy : (c.top != evacuatedY) = true := by
+            simp only [bne_iff_ne, ne_eq]; intro e'; rw [e'] at h5; simp [evacuatedY] at h5
+          simp only [hx, hy, Bool.and_self, Bool.true_or, if_true, Bool.false_eq_true, if_false, pure, Except.pure] at e
+          injection e with e
+          injection e with e1 e2 e3
+          exact ⟨c, hmem, hlive, e1.symm, e2.symm⟩
+
+
+/-- an iterator positioned in the current bucket array of a table that is not growing -/
+structure IterCur (h : HMap K V) (it : Iter K V) : Prop where
+  gen : it.gen = h.gen
+  cb : it.checkBucket = none
+  bptr : ∀ br, it.bptr = some br → br.gen = h.gen
+
+omit [Inhabited K] [Inhabited V] in
+theorem mem_abs_of_cell {h : HMap K V} {c : Cell K V} (hc : c ∈ allCells h) (hl : c.live = true) :
+    (c.key, c.val) ∈ abs h := by
+  unfold abs chainAbs
+  simp only [List.mem_map, List.mem_filter]
+  exact ⟨c, ⟨hc, hl⟩, rfl⟩
+
+theorem bucketAt_cur {o : Ops K} {h : HMap K V} (hw : WF o h) {br : BRef} (hg : br.gen = h.gen)
+    {cells : List (Cell K V)} {ovf : Bool} (hb : h.bucketAt br = some (cells, ovf)) :
+    NoMarks cells ∧ ∀ c ∈ cells, c ∈ allCells h := by
+  unfold HMap.bucketAt HMap.arrayOf at hb
+  simp only [hg, beq_self_eq_true, if_true] at hb
+  split at hb
+  · rename_i hlen
+    injection hb with hb
+    injection hb with hb1 hb2
+    subst hb1
+    by_cases hi : br.idx < h.buckets.size
+    · rw [getD_eq hi]
+      have hsub : ∀ c ∈ List.take bucketCnt (List.drop (br.pos * bucketCnt) h.buckets[br.idx]), c ∈ h.buckets[br.idx] :=
+        fun c hc => List.mem_of_mem_drop (List.mem_of_mem_take hc)
+      exact ⟨fun c hc => (hw.newOK _ hi).1 c (hsub c hc), fun c hc => mem_allCells_new hi (hsub c hc)⟩
+    · have : h.buckets.getD br.idx [] = [] := by simp [Array.getD, hi]
+      rw [this]
+      exact ⟨fun c hc => by simp at hc, fun c hc => by simp at hc⟩
+  · cases hb
+
+theorem iterLoop_yields_live {o : Ops K} {h : HMap K V} (hw : WF o h) (hold : h.old = none) :
+    ∀ (fuel : Nat) (it : Iter K V) (bucket : Nat) (b : Option BRef) (i : Nat) (it' : Iter K V),
+      IterCur h it → (∀ br, b = some br → br.gen = h.gen) →
+      iterLoop o h fuel it bucket b i none = .ok it' →
+      IterCur h it' ∧ ∀ k v, it'.key = some k → it'.elem = some v → (k, v) ∈ abs h := by
+  intro fuel
+  induction fuel with
+  | zero => intro it bucket b i it' _ _ e; simp [iterLoop] at e
+  | succ fuel ih =>
+    intro it bucket b i it' hic hb e
+    have hg := hic.gen
+    unfold iterLoop at e
+    cases b with
+    | none =>
+      simp only at e
+      split at e
+      · -- end of iteration
+        simp only [pure, Except.pure] at e
+        injection e with e
+        subst e
+        exact ⟨⟨hg, hic.cb, hic.bptr⟩, fun k v hk _ => by simp at hk⟩
+      · have hgrow : h.growing = false := by simp [HMap.growing, hold]
+        simp only [hgrow, Bool.false_and, Bool.false_eq_true, if_false] at e
+        split at e
+        · simp only at e
+          exact ih { it with wrapped := true } 0 (some { gen := it.gen, idx := bucket, pos := 0 }) 0 it'
+            ⟨hg, hic.cb, hic.bptr⟩ (fun br hbr => by injection hbr with hbr; rw [← hbr]; exact hg) e
+        · simp only at e
+          exact ih it (bucket + 1) (some { gen := it.gen, idx := bucket, pos := 0 }) 0 it' hic
+            (fun br hbr => by injection hbr with hbr; rw [← hbr]; exact hg) e
+    | some br =>
+      have hbg := hb br rfl
+      simp only at e
+      cases hba : h.bucketAt br with
+      | none =>
+        simp only [hba] at e
+        exact ih _ _ _ _ _ hic (fun br' hbr' => by cases hbr') e
+      | some p =>
+        obtain ⟨cells, ovf⟩ := p
+        simp only [hba] at e
+        obtain ⟨hN, hsub⟩ := bucketAt_cur hw hbg hba
+        cases hsc : iterScan o h it cells none bucketCnt i with
+        | error er => simp [hsc, bind, Except.bind] at e
+        | ok so =>
+          simp only [hsc, bind, Except.bind] at e
+          cases so with
+          | yield k v i' =>
+            simp only [pure, Except.pure] at e
+            injection e with e
+            subst e
+            obtain ⟨c, hc, hl, hk, hv⟩ := iterScan_yield hN _ _ _ _ _ hsc
+            refine ⟨⟨hg, rfl, fun br' hbr' => by injection hbr' with hbr'; rw [← hbr']; exact hbg⟩, fun k' v' hk' hv' => ?_⟩
+            simp only [Option.some.injEq] at hk' hv'
+            rw [← hk', ← hv', hk, hv]
+            exact mem_abs_of_cell (hsub c hc) hl
+          | done =>
+            simp only at e
+            refine ih _ _ _ _ _ hic (fun br' hbr' => ?_) e
+            split at hbr'
+            · injection hbr' with hbr'; rw [← hbr']; exact hbg
+            · cases hbr'
+
+
+/-- `mapiternext` for an iterator in the current array of a table that is not growing: what it yields is an
+    entry of the table as it is now -/
+theorem mapiternext_yields_live {o : Ops K} {h : HMap K V} (hw : WF o h) (hold : h.old = none) {it it' : Iter K V}
+    (hic : IterCur h it) (e : mapiternext o h it = .ok it') :
+    IterCur h it' ∧ ∀ k v, it'.key = some k → it'.elem = some v → (k, v) ∈ abs h := by
+  unfold mapiternext at e
+  rw [hic.cb] at e
+  exact iterLoop_yields_live hw hold _ it _ _ _ it' hic hic.bptr e
 
 end LlgoVerif.HMap
